@@ -337,6 +337,19 @@ def oracleBind (c : CaseIn) (chunks : List Bytes) (rkv : KV) : Option String :=
   (chk "xx" gotX).orElse fun _ => (chk "xn" (",".intercalate notes)).orElse fun _ =>
   (chk "xtf" tf).orElse fun _ => (chk "xd" dr).orElse fun _ => chk "xt" pd
 
+/-- C04 oracle on the implementation's run: the connection is released once the client has hung
+    up, a bystander connection opened meanwhile is served, and the bytes allocated while serving
+    a connection that announces huge lengths / counts stay below `4 MiB + 16·limit` -/
+def oracleHostile (c : CaseIn) (rkv : KV) : Option String :=
+  let L := effLimit c.cfg.L
+  if get c.kv "fin" = "1" ∧ get rkv "fin" ≠ "1" then some "C04:connection-not-released-after-client-hangup"
+  else if get c.kv "by" = "1" ∧ get rkv "by" ≠ "ok" then some ("C04:bystander-connection-not-served:" ++ get rkv "by")
+  else if get c.kv "alloc" = "1" then
+    match (get rkv "alloc").toNat? with
+    | none => some "C04:allocation-not-measured"
+    | some a => if a > 4194304 + 16 * L then some ("C04:allocated=" ++ toString a ++ ":limit=" ++ toString L) else none
+  else none
+
 /-- C09 oracle: decode every DataRow of the implementation's transcript as a client would
     (type OIDs and format codes from the generator's description of the request, checked against
     the RowDescription) and compare with the values the handler was told to write -/
@@ -659,6 +672,7 @@ def oracle (c : CaseIn) (chunks : List Bytes) (rkv : KV) : Option String :=
   else if c.camp = "bind" then oracleBind c chunks rkv
   else if c.camp = "simple" then oracleSimple c chunks rkv
   else if c.camp = "values" then oracleValues c chunks
+  else if c.camp = "hostile" ∨ c.camp = "alloc" then oracleHostile c rkv
   else if c.camp = "ext" then oracleExt c chunks rkv
   else if c.camp = "auth" then oracleAuth c chunks rkv
   else if c.camp = "multi" then oracleMulti c rkv
